@@ -96,6 +96,13 @@ def build_scenarios(prop, tier, rnd):
                     add([{"op": "put", "k": 1, "c": "A"}], [[{"op": cl, "c": "C"}], other], deep, plant=pl)
         return sc
     if prop == "C13":
+        # transactions that are really open at the same time on one key: one is abandoned, the other commits
+        fin = lambda c: [{"op": "txbegin", "k": 1, "c": c}, {"op": "txfinish", "k": 1, "c": c}]
+        ab = lambda c: [{"op": "txbegin", "k": 1, "c": c}, {"op": "txabort", "k": 1, "c": c}]
+        for init in INITS[:2]:
+            for a, b in ((fin("A"), ab("B")), (fin("B"), ab("B")), (fin("G"), ab("A")), (ab("A"), ab("B"))):
+                add(init, [a, b], dfs)
+            add(init, [fin("B"), ab("A"), [{"op": "get", "k": 1}]], dfs)
         for other in ([{"op": "put", "k": 1, "c": "B"}], [{"op": "del", "k": 1}], [{"op": "get", "k": 1}], [{"op": "put", "k": 1, "c": "A"}]):
             for init in INITS[:2]:
                 add(init, [[{"op": "abort", "k": 1, "c": "B"}, {"op": "abort", "k": 1, "c": "A"}], other], dfs)
@@ -127,6 +134,13 @@ def build_scenarios(prop, tier, rnd):
             combos = combos[:14] + [(k1("A"), [k1("A"), {"op": "del", "k": 1}])]
         for i, (o, t2) in enumerate(combos):
             add(INITS[i % 2], [[o], t2], dict(dfs, runs=80 if q else 800))
+    # three writers on one key / one content: all schedules with at most two pre-emptions (capped)
+    if prop in ("C04", "C15"):
+        k = lambda i, c: {"op": "put", "k": i, "c": c}
+        trios = [[[k(1, "A")], [k(1, "A")], [{"op": "del", "k": 1}]], [[k(1, "A")], [k(2, "A")], [{"op": "del", "k": 1}]],
+                 [[k(1, "B")], [k(1, "A")], [W[6]]], [[k(1, "A")], [{"op": "del", "k": 1}], [{"op": "del", "k": 2}]]]
+        for i, th in enumerate(trios if not q else trios[:3]):
+            add(INITS[1 + i % 2], th, dict(dfs, runs=120 if q else 2000))
     # two operations per thread, three threads: seeded random schedules
     rs = {"kind": "random", "runs": 25 if q else 300, "seed": seed()}
     menu = W + (R if prop in ("C05", "C15") else [])
